@@ -5,7 +5,7 @@ thorough tiers differ only in constants / families."""
 
 # every model switch at its "code as it is" value; a plan or the selftest overrides what it needs
 MODULE_DEFAULTS = {
-    "MC_Eval": {"DEV_MissingDynAnchorFails": "FALSE", "MUT_Eval": '"none"'},
+    "MC_Eval": {"DEV_MissingDynAnchorFails": "FALSE", "DEV_FalsyBesideRef": "FALSE", "MUT_Eval": '"none"'},
     "MC_Codec": {"DEV_OmitEmptyAssertingLists": "FALSE", "DEV_CaseFoldKeys": "FALSE", "MUT_Codec": '"none"'},
     "MC_Defaults": {"DEV_EmptyContainerDefault": "FALSE", "MUT_Defaults": '"none"'},
     "MC_Clone": {"MUT_SkipField": '"none"', "MUT_Clone": '"none"'},
